@@ -196,6 +196,22 @@ def cases(rng, tier):
     return out
 
 
+def malformed(rng, tier):
+    """the malformed stream: sources that never get to run (or fail at once); the part of the property that still
+    applies is checked - the call returns, nothing keeps running"""
+    srcs = [("bad-parse", "for {"), ("bad-undefined", "mark()\nundefined_fn()"), ("bad-runtime", "mark()\n[1][5]"),
+            ("bad-empty", ""), ("bad-spawn-arg", "mark()\nspawn(1)"), ("bad-go", "go 1"), ("bad-send", "mark()\n1 <- 2"),
+            ("bad-recv", "mark()\n<-1"), ("bad-wait", "mark()\n(1).wait()"), ("bad-each", "mark()\n[1].each(1)")]
+    frags = ["for", "{", "}", "go", "func()", "(", ")", "<-", "chan()", "spawn", "tick()", "mark()", ";", "\n", "range", "x", ":=", "1", "try(", "[", "]", ".each", "defer"]
+    for i in range(30 if tier == "quick" else 300):
+        srcs.append(("soup%d" % i, " ".join(rng.choice(frags) for _ in range(2 + rng.below(10)))))
+    out = []
+    for name, text in srcs:
+        for inst in ("pre", "burst", "mark"):
+            out.append({"id": "%s/%s" % (name, inst), "name": name, "src": text, "instant": inst, "delay_us": 0})
+    return out
+
+
 def model_instant(c):
     if c["instant"] in ("pre", "burst"):
         return "E"
@@ -276,7 +292,9 @@ def run(res):
 
     # implementation: the cases in shards (each case measures its own goroutines, so shards are separate processes);
     # thorough repeats under GOMAXPROCS 1, 2 and the default
+    bad = malformed(rng, tier)
     ilines = [json.dumps({"id": c["id"], "src": program(c["shape"]), "instant": c["instant"], "delay_us": c["delay_us"]}) for c in cs]
+    ilines += [json.dumps({"id": c["id"], "src": c["src"], "instant": c["instant"], "delay_us": 0}) for c in bad]
     procs = [None] if tier == "quick" else [None, "1", "2"]
     impl_runs = []
     for gmp in procs:
@@ -358,6 +376,19 @@ def run(res):
             if len(samples) < 8 and c["name"] in ("go-nest3", "cb-sorted-3-loop", "block-wait", "spawn-nest3-blocked") and c["instant"] == "mark":
                 samples.append(info)
 
+    # the malformed stream: whatever comes back, the call returns and nothing keeps running
+    bad_evals = 0
+    for gmp, out in impl_runs:
+        for c in bad:
+            f = out.get(c["id"])
+            if f is None or f[0].startswith("SKIPPED"):
+                continue
+            bad_evals += 1
+            returned, lat_us, ec, val, t_ret, t_b, t_c, g0, g_after, settled = f
+            if returned != "true" or settled != "true" or t_b != t_c:
+                oracle_viol.append({"case": c["id"], "src": c["src"], "instant": c["instant"], "delay_us": 0, "gomaxprocs": gmp,
+                                    "why": "malformed program: returned=%s settled=%s ticks %s->%s" % (returned, settled, t_b, t_c)})
+    evals += bad_evals
     lat.sort()
     cov["evaluations"] = evals
     cov["distinct_nontrivial"] = len(nontrivial)
@@ -371,7 +402,7 @@ def run(res):
                        len(base_shapes(C.Rng(res.seed), tier)), "; 120 random shapes" if tier == "thorough" else "",
                        "" if tier == "quick" else " x 20 repetitions x GOMAXPROCS {default, 1, 2}"))
     cov["samples"] = samples
-    cov["correspondence"] = {"cases": evals, "differences": len(corr_diffs), "skipped_after_hang": skipped,
+    cov["correspondence"] = {"cases": evals - bad_evals, "malformed_stream": bad_evals, "differences": len(corr_diffs), "skipped_after_hang": skipped,
                              "shapes_explored_by_the_model": len(model_out) - len(unexplored), "shapes_beyond_the_explorer_budget": len(unexplored),
                              "model_states_max": max(v["states"] for v in model_out.values()),
                              "model_max_steps_after_flag": max(v["maxsteps"] for v in model_out.values())}
